@@ -348,3 +348,21 @@ func TestVerifC01Stress(t *testing.T) {
 		}
 	}
 }
+
+// ---------------------------------------------------------------- (d) scripted preemption scenarios
+func TestVerifC01Scenarios(t *testing.T) {
+	w := newVerifWriter(t, "c01_scen_out.jsonl")
+	defer w.close()
+	mbs := []string{"unbounded", "segmented", "nonblocking-bounded"}
+	if verifEnvInt("VERIF_THOROUGH", 0) != 1 {
+		mbs = []string{mbs[int(verifSeed())%len(mbs)]}
+		if mbs[0] != "unbounded" {
+			mbs = append(mbs, "unbounded")
+		}
+	}
+	for _, mb := range mbs {
+		for _, o := range vdScenarios(mb) {
+			w.put(o)
+		}
+	}
+}
